@@ -1,5 +1,7 @@
 import Mochi.Model.Broker
 import Mochi.Props.C01
+import Mochi.Lemmas.BrokerShared
+import Mochi.Props.C06
 /-!
 # C40 — The inline client API behaves like a regular subscriber and publisher
 
@@ -10,6 +12,10 @@ every history); which retained messages a filter selects is C02.
 Proved here: an inline subscription receives the retained matches at subscribe time; unsubscribing
 one identifier leaves the other identifiers at that filter in place; the per-client delivered QoS is
 `min(requested, subscription, server maximum)` (C04).
+Second part (lemmas: `Mochi/Lemmas/BrokerShared.lean`): which inline subscriptions a publish reaches —
+`inline_delivery_exact` (exactly the identifiers holding an index entry whose filter `specMatch`es the topic, once
+each), the inline publish op (`C40_inline_publish_reaches_exactly`: exactly the entitled connections AND exactly the
+matching inline subscriptions) and `C40_inline_unsubscribe_only_that_id`.
 -/
 namespace Mochi.Broker
 open Mochi.Topics
@@ -36,4 +42,124 @@ example :
     let t3 := (inlineUnsubscribe t2 1 [97]).1
     ((subscribers t3 [97]).inline.map Prod.fst) = [2] := by decide
 
+/-! ## Which inline subscriptions a publish reaches
+
+`InlineMatching x topic id`: a particle whose address `q` `specMatch`es the topic holds an inline subscription of
+`id` (`inlineAt x q id`); `q` is the list of levels of the filter `id` subscribed under. -/
+
+/-- **an inline publish reaches exactly the entitled connections and exactly the matching inline subscriptions.**
+    `s`: any state satisfying the all-history invariants (every `ReachSeq` state).  The op
+    `step s (.inlinePublish topic payload retain qos)` (`Server.Publish`), accepted (`AcceptedInline`), QoS 0 after
+    shaping, no shared subscription matching the topic (the hypotheses of `inline_publish_delivery_exact`):
+
+    1. a PUBLISH is written to exactly the entitled connections, once each, and every output is an inline delivery
+       of `(topic, payload)` or a copy of the message (`DeliversExactly` = `inline_publish_delivery_exact`);
+    2. `Out.inline id t p` is among the outputs **iff** `t = topic`, `p = payload` and inline subscription `id`
+       holds an index entry whose filter `specMatch`es the topic (read in the state BEFORE the op);
+    3. at most once per identifier. -/
+theorem C40_inline_publish_reaches_exactly (s : Server) (hs : SyncInv s) (hw : WF s) (hcm : ConnMap s)
+    (topic payload : Str) (retain : Bool) (qos : Nat) (h : AcceptedInline s topic)
+    (hq : qos = 0 ∨ ∀ c sub, MatchingSub s.topics topic c sub → sub.qos = 0)
+    (hsh : (subscribers s.topics topic).shared = []) :
+    (∀ n, DeliversExactly s (inlineMsg s topic payload retain qos)
+      (step s (.inlinePublish topic payload retain qos)).2 n) ∧
+    (∀ id t p, Out.inline id t p ∈ (step s (.inlinePublish topic payload retain qos)).2 ↔
+      t = topic ∧ p = payload ∧ InlineMatching s.topics topic id) ∧
+    ∀ id, (step s (.inlinePublish topic payload retain qos)).2.count (Out.inline id topic payload) ≤ 1 := by
+  refine ⟨fun n => inline_publish_delivery_exact s hs hw hcm topic payload retain qos h hq hsh n, ?_⟩
+  have hnh := no_hash_level_of_noWild topic h.noWild
+  have hsh' := (retainedState_shared s (inlineMsg s topic payload retain qos) hs.idx topic h.nonempty hnh).mpr hsh
+  obtain ⟨is, _, _⟩ := retainedState_inv (inlineMsg s topic payload retain qos) hs hw hcm
+  have hq' : (inlineMsg s topic payload retain qos).qos = 0 ∨
+      ∀ c sub, MatchingSub (retainedState s (inlineMsg s topic payload retain qos)).topics topic c sub → sub.qos = 0 :=
+    hq.imp (inlineMsg_fields s topic payload retain qos).2.2.2.2.2
+      (fun g c sub hm => g c sub ((matchingSub_congr (retainedState_quiet s _).plain topic c sub).mp hm))
+  rw [step_inlinePublish_accepted s topic payload retain qos h
+    (hq'.imp id (merged_qos_zero _ is.idx topic h.nonempty hnh (C03_one_entry_per_client _ topic))) hsh']
+  have key := fun id => inline_delivery_exact (retainedState s (inlineMsg s topic payload retain qos)) is.idx
+    (inlineMsg s topic payload retain qos) rfl h.nonempty hnh id
+  refine ⟨fun id t p => ?_, fun id => (key id).2⟩
+  rw [(key id).1 t p, inlineMatching_retainedState]
+  exact Iff.rfl
+
+/-- the same for a QoS 0 inline publish with NO hypothesis on shared subscriptions; the entitlement
+    (`EntitledShared`: plain entry or picked member of a candidate entry, C06) is read in the state in which the
+    message is routed — `retainedState`: the state before the op with the retained store updated if `retain` -/
+theorem C40_inline_publish_reaches_exactly_shared (s : Server) (hs : SyncInv s) (hw : WF s) (hcm : ConnMap s)
+    (topic payload : Str) (retain : Bool) (h : AcceptedInline s topic) :
+    (∀ n, ((∃ ver m mes, Out.wrote n (.publish ver m mes) ∈ (step s (.inlinePublish topic payload retain 0)).2) ↔
+        EntitledShared (retainedState s (inlineMsg s topic payload retain 0)) (inlineMsg s topic payload retain 0) n) ∧
+      ((step s (.inlinePublish topic payload retain 0)).2.filterMap pubConn).count n ≤ 1) ∧
+    (∀ id t p, Out.inline id t p ∈ (step s (.inlinePublish topic payload retain 0)).2 ↔
+      t = topic ∧ p = payload ∧ InlineMatching s.topics topic id) ∧
+    ∀ id, (step s (.inlinePublish topic payload retain 0)).2.count (Out.inline id topic payload) ≤ 1 := by
+  have hnh := no_hash_level_of_noWild topic h.noWild
+  obtain ⟨is, iw, ic⟩ := retainedState_inv (inlineMsg s topic payload retain 0) hs hw hcm
+  have hq0 : (inlineMsg s topic payload retain 0).qos = 0 := (inlineMsg_fields s topic payload retain 0).2.2.2.2.2 rfl
+  rw [step_inlinePublish_accepted_shared s topic payload retain 0 h (Or.inl hq0)]
+  have key := fun id => inline_delivery_exact (retainedState s (inlineMsg s topic payload retain 0)) is.idx
+    (inlineMsg s topic payload retain 0) rfl h.nonempty hnh id
+  refine ⟨fun n => ?_, fun id t p => ?_, fun id => (key id).2⟩
+  · obtain ⟨h1, _, _, h4, _⟩ := publishToSubscribers_writes_exact_shared _ iw ic.distinct
+      (inlineMsg s topic payload retain 0) rfl rfl hq0 n
+    exact ⟨h1, h4⟩
+  · rw [(key id).1 t p, inlineMatching_retainedState]
+    exact Iff.rfl
+
+/-- **unsubscribing one inline subscription stops delivery for that identifier (and that filter) only.**  `s`: a
+    state with a structurally sound index (every reachable state); `t`: any later state whose index is that of
+    `step s (.inlineUnsubscribe id f)` (`f` a valid filter).  For every message `pk` published in `t`:
+
+    1. for every OTHER identifier `id'` the inline deliveries are those a publish in `s` produces — in particular
+       `id'` still receives if it held a matching entry;
+    2. `id` receives iff it holds ANOTHER entry (at an address other than that of `f`) whose filter matches. -/
+theorem C40_inline_unsubscribe_only_that_id (s : Server) (hx : IdxOK s.topics) (id : Nat) (f : Str)
+    (hv : isValidFilter f false = true) (t : Server) (ht : t.topics = (step s (.inlineUnsubscribe id f)).1.topics)
+    (pk : Msg) (hig : pk.ignore = false) (hne : pk.topic ≠ []) (hnh : ∀ l ∈ splitLevels pk.topic, l ≠ [hash]) :
+    (∀ id', id' ≠ id → ∀ tp p,
+      (Out.inline id' tp p ∈ (publishToSubscribers t pk).2 ↔ Out.inline id' tp p ∈ (publishToSubscribers s pk).2)) ∧
+    (∀ id', id' ≠ id → InlineMatching s.topics pk.topic id' →
+      Out.inline id' pk.topic pk.payload ∈ (publishToSubscribers t pk).2) ∧
+    (∀ tp p, Out.inline id tp p ∈ (publishToSubscribers t pk).2 ↔
+      tp = pk.topic ∧ p = pk.payload ∧
+        ∃ q sub, q ≠ splitLevels f ∧ inlineAt s.topics q id = some sub ∧ specMatch q pk.topic = true) := by
+  have htop : t.topics = (inlineUnsubscribe s.topics id f).1 := by
+    rw [ht]; simp [step, hv]
+  have hxt : IdxOK t.topics := by rw [htop]; exact idxOK_inlineUnsubscribe _ hx _ _
+  have hat : ∀ q id', inlineAt t.topics q id' =
+      if q = splitLevels f ∧ id' = id then none else inlineAt s.topics q id' := by
+    intro q id'
+    rw [htop, inlineAt_inlineUnsubscribe _ hx.pc, plainPath_eq]
+  have hother : ∀ id', id' ≠ id → (InlineMatching t.topics pk.topic id' ↔ InlineMatching s.topics pk.topic id') := by
+    intro id' hne'
+    unfold InlineMatching
+    simp only [hat, hne', and_false, if_false]
+  have h1 : ∀ id', id' ≠ id → ∀ tp p,
+      (Out.inline id' tp p ∈ (publishToSubscribers t pk).2 ↔ Out.inline id' tp p ∈ (publishToSubscribers s pk).2) := by
+    intro id' hne' tp p
+    rw [(inline_delivery_exact t hxt pk hig hne hnh id').1, (inline_delivery_exact s hx pk hig hne hnh id').1,
+      hother id' hne']
+  refine ⟨h1, ?_, ?_⟩
+  · intro id' hne' hm
+    exact (h1 id' hne' _ _).mpr (((inline_delivery_exact s hx pk hig hne hnh id').1 _ _).mpr ⟨rfl, rfl, hm⟩)
+  · intro tp p
+    rw [(inline_delivery_exact t hxt pk hig hne hnh id).1]
+    unfold InlineMatching
+    constructor
+    · rintro ⟨a, b, q, sub, hq, hsm⟩
+      rw [hat] at hq
+      by_cases hqf : q = splitLevels f
+      · rw [if_pos ⟨hqf, rfl⟩] at hq; cases hq
+      · rw [if_neg (fun h => hqf h.1)] at hq
+        exact ⟨a, b, q, sub, hqf, hq, hsm⟩
+    · rintro ⟨a, b, q, sub, hqf, hq, hsm⟩
+      refine ⟨a, b, q, sub, ?_, hsm⟩
+      rw [hat, if_neg (fun h => hqf h.1)]
+      exact hq
+
 end Mochi.Broker
+
+#print axioms Mochi.Broker.inline_delivery_exact
+#print axioms Mochi.Broker.C40_inline_publish_reaches_exactly
+#print axioms Mochi.Broker.C40_inline_publish_reaches_exactly_shared
+#print axioms Mochi.Broker.C40_inline_unsubscribe_only_that_id
